@@ -105,7 +105,7 @@ impl Check for C14 {
 
     fn runs(&self, tier: Tier) -> u64 {
         match tier {
-            Tier::Quick => 40_000,
+            Tier::Quick => 200_000,
             Tier::Thorough => 1_500_000,
         }
     }
